@@ -41,9 +41,6 @@ Fixpoint spec_enabled (fuel : nat) (h : hier) (n : string) : bool :=
 Definition spec_effdrop (h : hier) (b : string) (dropo : option bool) : bool :=
   match dropo with Some d => d | None => negb (spec_enabled (S (List.length h)) h b) end.
 
-(* every field is an init field (no field(init=False) anywhere) *)
-Definition init_only (h : hier) : bool := forallb (fun c => forallb f_init (c_fields c)) h.
-
 (* ---- flat data: integer payloads only ---- *)
 Definition flat_class (c : cdecl) : bool := forallb (fun f => match f_ty f with TInt => true | _ => false end) (c_fields c).
 Fixpoint flat_fields (fs : vfields) : bool :=
